@@ -13,6 +13,17 @@ Driver handlers for C09.
     ↦ `T<total> R<…> SEQ <OK ids|ERR> PAR <OK a,b|c | PANIC> VEC <OK ids|ERR>`
 * `SPLITR <len> <parts>` ↦ `split_ranges(len, parts)` as `idx:start-end,…`
 * `GLOB <path:count,…>` ↦ `F<file indices in read order> N<total records>`
+* `SHARDS parquetw <n> <per>` — a file written by `write_parquet_vec` (row groups = `pqWrite 1048576`)
+* `PQBAD <g1,..|-> <per> <schema|gone>` ↦ `R<ranges> SPLIT <NONE|sizes> SEQ <OK n|ERR> PAR <OK n|PANIC> VEC <OK n|ERR>`
+  (every batch undecodable / file vanished after the shards were built)
+* `PARFS <jsonl|csv|csvh> <n> <shards|none> auto=<a> pre=<i:k,..|-> tgt=<k|->` ↦ `OK W<H|id,..> L<stale part idx left>`
+  (directory with stale part files `i` holding `k` lines and an older target of `k` lines)
+* `CSVRD <0|1> <per> <g<int>|b|r,..|->` (all records of the file; `b` = does not deserialise, `r` = reader error)
+    ↦ as `JSONLRD`
+* `WRJSONL <ints|-> <shards|none> auto=<a>` ↦ `SEQ <hex|-> PAR <hex|-|PANIC>` (bytes of `write_jsonl_vec` / `write_jsonl_par`)
+* `RDHELPER <hex path> lit=<count|-> glob=<path:count,..|->` ↦ `N<n> I<owner,..>` | `ERR`
+* `MKDIR <writer>` ↦ `OK` | `ERR` (target below a missing directory)
+* `PQGROUPS <n>` ↦ row-group sizes of a file written by `write_parquet_vec` from `n` rows
 -/
 namespace IB.D09
 open IB.Wire IB.Io
@@ -70,12 +81,27 @@ def shardsParquet (sizes : List Nat) (per : Nat) : String :=
   let v := parquetAll groups
   let okIds (l : List Nat) : String :=
     if l == List.range l.length then toString l.length else "X"
+  -- the batch-level definitions (identity decoding) must give the same answers
+  let dec : List Nat → Option (List Nat) := readAll (fun _ => false) some
+  let same := pqSplit true 1024 dec groups per == some parts && pqSeq true 1024 dec groups per == some s &&
+    pqReadAll true 65536 dec groups == some v
+  if !same then "MODEL-INCONSISTENT" else
   s!"T{total} R{showRanges ranges} P{showNats (parts.map List.length)} S{okIds s} Q{okIds q} V{okIds v}"
+
+def groupsOf (sizes : List Nat) : List (List Nat) :=
+  (sizes.foldl (fun (acc : Nat × List (List Nat)) sz =>
+    (acc.1 + sz, acc.2 ++ [List.range' acc.1 sz])) (0, [])).2
 
 def handleShards : List String → String
   | ["parquet", gs, per] =>
     match nats? gs, parseNat? per with
     | some gs, some per => shardsParquet gs per
+    | _, _ => "BAD-OP"
+  | ["parquetw", n, per] =>
+    match parseNat? n, parseNat? per with
+    | some n, some per =>
+      -- `write_parquet_vec`: default `WriterProperties` ⇒ row groups of at most 1 Mi rows
+      shardsParquet ((pqWrite 1048576 (fun r => r) (List.range n)).map List.length) per
     | _, _ => "BAD-OP"
   | [fmt, total, per] =>
     match parseNat? total, parseNat? per with
@@ -94,16 +120,16 @@ def showCell : Option Nat → String
   | some i => toString i
 
 def handleParWrite : List String → String
-  | [fmt, n, sh, auto, via] =>
-    match parseNat? n, shards? sh, kv? "auto" [auto], kv? "via" [via] with
-    | some n, some sh, some auto, some via =>
+  | [fmt, n, sh, auto, via, hw] =>
+    match parseNat? n, shards? sh, kv? "auto" [auto], kv? "via" [via], (kv? "hw" [hw]).bind parseNat? with
+    | some n, some sh, some auto, some via, some hw =>
       match parseNat? auto with
       | none => "BAD-OP"
       | some auto =>
         let data := List.range n
         if fmt == "jsonl" && (via == "fn" || via == "pc") then
           -- PCollection::write_jsonl_par = collect_seq (identity on an in-memory source) + the free fn
-          match parWriteJsonl data sh auto with
+          match (if via == "pc" then pcWriteJsonlPar data sh auto else parWriteJsonl data sh auto) with
           | none => "PANIC"
           | some w =>
             let b := if n = 0 then [] else jsonlShardBounds n (shardCount sh auto n)
@@ -116,35 +142,15 @@ def handleParWrite : List String → String
             let b := if n = 0 then [] else splitRanges n (shardCount sh auto n)
             s!"OK B{showBounds b} W{joinWith "," (w.map showCell)}"
         else if (fmt == "csv" || fmt == "csvh") && via == "pc" then
-          -- PCollection::write_csv_par = collect_par(shards) + write_csv_vec
+          -- PCollection::write_csv_par = collect_par(threads := shards, partitions := planner suggestion) + write_csv_vec
           let hdr := fmt == "csvh"
-          let w := csvWrite hdr (none : Option Nat) some (collectParVec data (sh.getD auto))
+          let w := pcWriteCsvPar hdr (none : Option Nat) some data sh hw
           s!"OK B- W{joinWith "," (w.map showCell)}"
         else "BAD-OP"
-    | _, _, _, _ => "BAD-OP"
+    | _, _, _, _, _ => "BAD-OP"
   | _ => "BAD-OP"
 
-/-! ### JSONL byte level, records = JSON integers -/
-
-def jsonWs (c : Char) : Bool := c == ' ' || c == '\t' || c == '\n' || c == '\r'
-
-def trimJsonWs (l : List Char) : List Char :=
-  ((l.dropWhile jsonWs).reverse.dropWhile jsonWs).reverse
-
-/-- canonical JSON integer in the `i64` range (no leading zeros, no `-0`, no `+`) -/
-def deInt (l : List Char) : Option Int :=
-  let t := trimJsonWs l
-  let (neg, ds) := match t with
-    | '-' :: r => (true, r)
-    | r => (false, r)
-  if ds.isEmpty || !ds.all Char.isDigit then none
-  else if ds.length > 1 && ds.head? == some '0' then none
-  else
-    let n := ds.foldl (fun acc c => acc * 10 + (c.toNat - '0'.toNat)) 0
-    if neg && n == 0 then none
-    else
-      let v : Int := if neg then - (Int.ofNat n) else Int.ofNat n
-      if v < -9223372036854775808 || v > 9223372036854775807 then none else some v
+/-! ### JSONL byte level, records = JSON integers (`deInt` is the model's, see `intCodec`) -/
 
 def showInts (xs : List Int) : String := joinWith "," (xs.map toString)
 
@@ -209,8 +215,182 @@ def handleSplitR : List String → String
     | _, _ => "BAD-OP"
   | _ => "BAD-OP"
 
+
+/-! ### Parquet failure outcomes -/
+
+def handlePqBad : List String → String
+  | [gs, per, kind] =>
+    match nats? gs, parseNat? per with
+    | some sizes, some per =>
+      if kind != "schema" && kind != "gone" then "BAD-OP" else
+      let groups := groupsOf sizes
+      let opened := kind != "gone"
+      -- `schema`: no row of the file deserialises into the requested record type
+      let dec : List Nat → Option (List Nat) :=
+        readAll (fun _ => false) (fun r => if kind == "schema" then none else some r)
+      let ranges := mkGroupRanges groups.length per
+      let sp := match pqSplit opened 1024 dec groups per with
+        | some ps => showNats (ps.map List.length)
+        | none => "NONE"
+      let sq := match runSeqP opened 1024 dec groups per with
+        | .ok v => s!"OK {v.length}"
+        | .err => "ERR"
+        | .panic => "PANIC"
+      let pr := match runParP opened 1024 dec groups per with
+        | .ok v => s!"OK {v.length}"
+        | .err => "ERR"
+        | .panic => "PANIC"
+      let v := match pqReadAll opened 65536 dec groups with
+        | some v => s!"OK {v.length}"
+        | none => "ERR"
+      s!"R{showRanges ranges} SPLIT {sp} SEQ {sq} PAR {pr} VEC {v}"
+    | _, _ => "BAD-OP"
+  | _ => "BAD-OP"
+
+/-! ### the directory around the parallel writers -/
+
+def pairs? (s : String) : Option (List (Nat × Nat)) :=
+  if s == "-" then some []
+  else (s.splitOn ",").mapM fun t =>
+    match t.splitOn ":" with
+    | [a, b] => do pure ((← parseNat? a), (← parseNat? b))
+    | _ => none
+
+/-- `k` stale lines (ids from `1000·(i+1)`) -/
+def staleLines (i k : Nat) : List Char :=
+  writeJsonl (fun (v : Nat) => serNat v) ((List.range k).map (· + 1000 * (i + 1)))
+
+def cellsOf (bytes : List Char) : String :=
+  joinWith "," ((splitLines bytes).map fun l => String.ofList l)
+
+def handleParFs : List String → String
+  | [fmt, n, sh, auto, pre, tgt] =>
+    match parseNat? n, shards? sh, (kv? "auto" [auto]).bind parseNat?, (kv? "pre" [pre]).bind pairs?,
+        kv? "tgt" [tgt] with
+    | some n, some sh, some auto, some pre, some tgt =>
+      let tgt? : Option (Option Nat) := if tgt == "-" then some none else (parseNat? tgt).map some
+      match tgt? with
+      | none => "BAD-OP"
+      | some tgt =>
+        let part : Nat → String := fun i => s!"part{i}"
+        let fs0 : Fs := fun q =>
+          if q == "target" then tgt.map (staleLines 50)
+          else (pre.find? fun p => part p.1 == q).map fun p => staleLines p.1 p.2
+        let data := List.range n
+        let left (fs : Fs) : String := showNats ((pre.filter fun p => (fs (part p.1)).isSome).map (·.1))
+        if fmt == "jsonl" then
+          match parWriteJsonlFs (fun (v : Nat) => serNat v) part "target" data sh auto fs0 with
+          | none => "PANIC"
+          | some fs => s!"OK W{cellsOf ((fs "target").getD ['?'])} L{left fs}"
+        else if fmt == "csv" || fmt == "csvh" then
+          match parWriteCsv (fmt == "csvh") (none : Option Nat) some data sh auto with
+          | none => "PANIC"
+          | some w =>
+            let bytes := (w.map fun c => (showCell c).toList ++ ['\n']).flatten
+            let fs := parWriteCsvFs fs0 "target" bytes
+            s!"OK W{cellsOf ((fs "target").getD ['?'])} L{left fs}"
+        else "BAD-OP"
+    | _, _, _, _, _ => "BAD-OP"
+  | _ => "BAD-OP"
+
+/-! ### CSV at the record level: good / undeserialisable / reader-error records -/
+
+inductive CsvTok
+  | good (v : Int) | bad | ragged
+
+def csvTok? (s : String) : Option CsvTok :=
+  if s == "b" then some .bad
+  else if s == "r" then some .ragged
+  else if s.startsWith "g" then (parseInt? (s.drop 1).toString).map .good
+  else none
+
+def csvDe : CsvTok → Option Int
+  | .good v => some v
+  | _ => none
+
+def handleCsvRd : List String → String
+  | [hdr, per, spec] =>
+    let toks? := if spec == "-" then some [] else (spec.splitOn ",").mapM csvTok?
+    match toks?, parseNat? per with
+    | some file, some per =>
+      if hdr != "0" && hdr != "1" then "BAD-OP" else
+      let h := hdr == "1"
+      let body := csvBody h file
+      let blank : CsvTok → Bool := fun _ => false
+      let ranges := mkRanges body.length per
+      let seq := match runSeq blank csvDe body with
+        | .ok v => "OK " ++ showInts v
+        | _ => "ERR"
+      let par := match splitView blank csvDe body per with
+        | some parts => "OK " ++ joinWith "|" (parts.map showInts)
+        | none =>
+          match runPar blank csvDe body per with
+          | .ok v => "FALLBACK " ++ showInts v
+          | _ => "PANIC"
+      let vec := match csvRead h csvDe file with
+        | some v => "OK " ++ showInts v
+        | none => "ERR"
+      s!"T{body.length} R{showRanges ranges} SEQ {seq} PAR {par} VEC {vec}"
+    | _, _ => "BAD-OP"
+  | _ => "BAD-OP"
+
+/-! ### bytes of the JSONL writers, records = `i64` -/
+
+def hexOfChars (cs : List Char) : String :=
+  if cs.isEmpty then "-" else bytesToHex (cs.map Char.toNat)
+
+def i64? (v : Int) : Option I64 :=
+  if h : -9223372036854775808 ≤ v ∧ v ≤ 9223372036854775807 then some ⟨v, h⟩ else none
+
+def handleWrJsonl : List String → String
+  | [ints, sh, auto] =>
+    let vs? : Option (List I64) :=
+      if ints == "-" then some [] else (ints.splitOn ",").mapM fun t => (parseInt? t).bind i64?
+    match vs?, shards? sh, (kv? "auto" [auto]).bind parseNat? with
+    | some vs, some sh, some auto =>
+      let par := match parWriteJsonlBytes serI64 vs sh auto with
+        | some b => hexOfChars b
+        | none => "PANIC"
+      s!"SEQ {hexOfChars (writeJsonl serI64 vs)} PAR {par}"
+    | _, _, _ => "BAD-OP"
+  | _ => "BAD-OP"
+
+/-! ### path helpers -/
+
+def handleRdHelper : List String → String
+  | [hexpath, lit, globSpec] =>
+    match hexToChars? hexpath, kv? "lit" [lit], kv? "glob" [globSpec] with
+    | some path, some lit, some spec =>
+      let lit? : Option (Option (List Nat)) :=
+        if lit == "-" then some none else (parseNat? lit).map fun c => some (List.replicate c 1000000)
+      let items := if spec == "-" then [] else spec.splitOn ","
+      match lit?, (items.zipIdx.mapM fun (s, i) => fileSpec? i s) with
+      | some literal, some files =>
+        match readHelper (readAll (fun _ => false) idDe) path literal files with
+        | none => "ERR"
+        | some ids => s!"N{ids.length} I{joinWith "," (ids.map fun i => if i == 1000000 then "L" else toString i)}"
+      | _, _ => "BAD-OP"
+    | _, _, _ => "BAD-OP"
+  | _ => "BAD-OP"
+
+/-- row-group sizes of a file written by `write_parquet_vec` from `n` rows -/
+def handlePqGroups : List String → String
+  | [n] =>
+    match parseNat? n with
+    | some n => showNats ((pqWrite 1048576 (fun r => r) (List.range n)).map List.length)
+    | none => "BAD-OP"
+  | _ => "BAD-OP"
+
+def handleMkdir : List String → String
+  | [writer] =>
+    match writeAt (createsParents writer) false () with
+    | some _ => "OK"
+    | none => "ERR"
+  | _ => "BAD-OP"
+
 def handlers : List (String × (List String → String)) :=
   [("SHARDS", handleShards), ("SPLITR", handleSplitR), ("PARWRITE", handleParWrite), ("JSONLRD", handleJsonlRd),
-   ("GLOB", handleGlob)]
+   ("GLOB", handleGlob), ("PQBAD", handlePqBad), ("PARFS", handleParFs), ("CSVRD", handleCsvRd),
+   ("WRJSONL", handleWrJsonl), ("RDHELPER", handleRdHelper), ("MKDIR", handleMkdir), ("PQGROUPS", handlePqGroups)]
 
 end IB.D09
